@@ -467,6 +467,30 @@ Qed.
 #[export] Hint Rewrite rn_file_block bn_file_block br_file_block cn_file_block c0_file_block c1_file_block ckey_file_block rname_file_block bname_file_block brock_file_block bcn_file_block cb0_file_block cb1_file_block rlist_file_block rdict_file_block blist_file_block clist_file_block cdict_file_block next_file_block bdict_file_block : gs_file_block.
 #[export] Hint Rewrite rn_rebuild_cdict bn_rebuild_cdict br_rebuild_cdict cn_rebuild_cdict c0_rebuild_cdict c1_rebuild_cdict ckey_rebuild_cdict rname_rebuild_cdict bname_rebuild_cdict brock_rebuild_cdict bcn_rebuild_cdict cb0_rebuild_cdict cb1_rebuild_cdict rlist_rebuild_cdict rdict_rebuild_cdict blist_rebuild_cdict bdict_rebuild_cdict clist_rebuild_cdict next_rebuild_cdict cdict_rebuild_cdict : gs_rebuild_cdict.
 
+(** ** relink (repaired add_rocktype): only [brock] changes, and only at listed blocks that held [old] *)
+Lemma br_relink g old j i : br (relink g old j) i = if mem i (blist g) && Pos.eqb (br g i) old then j else br g i.
+Proof.
+  unfold relink, br. cbn [brock set_brock].
+  assert (G : forall l m, fget 1%positive (fold_left (fun m i => if Pos.eqb (fget 1%positive (brock g) i) old then fset m i j else m) l m) i
+                          = if mem i l && Pos.eqb (fget 1%positive (brock g) i) old then j else fget 1%positive m i).
+  { induction l as [|a r IH]; intro m; cbn [fold_left mem existsb]; [reflexivity|]. rewrite IH. fold (mem i r).
+    destruct (Pos.eqb_spec i a) as [->|N]; cbn [orb].
+    - destruct (Pos.eqb (fget 1%positive (brock g) a) old) eqn:E; cbn [andb].
+      + destruct (mem a r); cbn [andb]; [reflexivity|apply fget_fset_eq].
+      + rewrite andb_false_r. reflexivity.
+    - destruct (Pos.eqb (fget 1%positive (brock g) a) old); [rewrite fget_fset_neq by exact N|]; reflexivity. }
+  apply G.
+Qed.
+Lemma relink_frame g old j :
+  rn (relink g old j) = rn g /\ bn (relink g old j) = bn g /\ cn (relink g old j) = cn g /\ c0 (relink g old j) = c0 g /\
+  c1 (relink g old j) = c1 g /\ ckey (relink g old j) = ckey g /\ rlist (relink g old j) = rlist g /\ rdict (relink g old j) = rdict g /\
+  blist (relink g old j) = blist g /\ bdict (relink g old j) = bdict g /\ clist (relink g old j) = clist g /\
+  cdict (relink g old j) = cdict g /\ next (relink g old j) = next g.
+Proof. repeat split; reflexivity. Qed.
+
+(** the repaired variants of delete_rocktype / add_block refuse some calls: a call that returned took the other branch *)
+Ltac norefuse H :=
+  match type of H with context [if ?c then Raise PlainException else _] => let R := fresh "Refused" in destruct c eqn:R; [discriminate H|] end.
 Ltac gs_pass :=
   try (lazymatch goal with |- context [set_rname _ _] => autorewrite with gs_set_rname end);
   try (lazymatch goal with |- context [set_bname _ _] => autorewrite with gs_set_bname end);
